@@ -134,6 +134,8 @@ def _icap_csv_rows_read(
             usecols=np.flatnonzero(col_mask),
             delimiter=delimiter,
         )
+        # genfromtxt squeezes single samples (or columns) to 1d
+        data = data.reshape(-1, np.count_nonzero(col_mask))
         unames, idx = np.unique(names, return_index=True)
         unames = unames[np.argsort(idx)]
 
